@@ -32,6 +32,8 @@ pub const SIGMA_T: &[&str] = &[
     "$", "@", "..", "..=", ".src", ".x",
     // literals and names
     "1", "0x1", "0o7", "0b1", "1.5", "1e5", "\"s\"", "'c'", "b'c'", "x", "y",
+    // a literal token whose text is empty
+    "\"\"",
 ];
 pub const SIGMA_T_CORE: &[&str] = &[
     "let", "fn", "if", "else", "match", "loop", "break", "x", "1", "0x1", "=", "-", "|", "..", "=>", ":", ";", ",",
@@ -391,7 +393,7 @@ impl Property for P01 {
     }
     fn rule(&self) -> String {
         "cases = A all character strings over a 54-char alphabet (one char per scanner branch) up to the length bound \
-         + one length more over a 20-char core; B all token sequences over a 66-token alphabet up to the bound + one \
+         + one length more over a 20-char core; B all token sequences over a 67-token alphabet up to the bound + one \
          more over a 24-token core; C 13 nesting constructs x depth 1..64 x 4 endings; D every single-token deletion, \
          insertion and substitution (from the 66 tokens) at every position of every seed program (repository examples + \
          inline seeds); E every token sequence of length <=2 appended to a printing script, run through the binary. \
